@@ -255,6 +255,81 @@ theorem T5_per_thread_fifo (n : Nat) (sched : List Enq.Actor) (t : Enq.Tid) (ht 
   have := hinv.dom c hc
   rw [hlen] at this; exact this
 
+/-- **One accepted send is one command.** Corollary of T5: after any schedule, the number of commands of thread `t` in the
+dispatched-then-queued list is exactly the number `k` of `send` calls of `t` that have stored their command — one command per
+accepted send, never several (a `send` that queued its payload in pieces would contribute more), none twice, and the sequence
+numbers present are exactly `0 … k-1`. The source-side half is `gen_conforms`: `send` has no loop, copies all `n` bytes into ONE
+`Command::send` and calls `enqueue` once. -/
+theorem send_is_one_command (n : Nat) (sched : List Enq.Actor) (t : Enq.Tid) (ht : t < n) :
+    let q := Enq.run Gen.TcpSession.enqueuePushUnderCmdMutex (Enq.init n) sched
+    ∃ th, q.thr[t]? = some th ∧
+      ((q.taken ++ q.cmds).filter (·.1 == t)).length = th.next + (if th.pc = .stored then 1 else 0) ∧
+      (Enq.seqOf t (q.taken ++ q.cmds)).Nodup ∧
+      ∀ j, j ∈ Enq.seqOf t (q.taken ++ q.cmds) ↔ j < th.next + (if th.pc = .stored then 1 else 0) := by
+  intro q
+  obtain ⟨⟨th, hth, hseq⟩, _⟩ := T5_per_thread_fifo n sched t ht
+  refine ⟨th, hth, ?_, ?_, ?_⟩
+  · have := congrArg List.length hseq
+    simpa [Enq.seqOf] using this
+  · rw [hseq]; exact List.nodup_range
+  · intro j; rw [hseq]; exact List.mem_range
+
+/-- **The bytes of one accepted send are contiguous on the wire (T1 ∘ T5).** The session's `accepted` list is exactly the list of
+(non-empty) payloads of the Send commands in dispatch order; hence for every history with every fault sequence, and for every
+way of singling out one accepted payload `p` (`xs` before it, `ys` after it): while the session is open the wire followed by the
+pending bytes is `xs.flatten ++ p ++ ys.flatten`, and always the wire is a prefix of it — the bytes of `p` form one block, the
+bytes of every other accepted send lie wholly before or wholly after it. -/
+theorem one_send_contiguous_on_wire (cfg : Cfg) (hcob : cfg.closeOnBackpressure = true) (s0 : St) (h0 : s0.Fresh)
+    (is : List In) :
+    let s := (run cfg s0 is).1
+    s.accepted = sentPayloads is ∧
+    ∀ xs p ys, sentPayloads is = xs ++ p :: ys →
+      (s.closed = false → s.wire ++ s.wq.flatten = xs.flatten ++ p ++ ys.flatten) ∧
+      s.wire <+: xs.flatten ++ p ++ ys.flatten := by
+  intro s
+  have hacc : s.accepted = sentPayloads is := by
+    show (run cfg s0 is).1.accepted = _
+    rw [run_accepted]; simp [St.accepted, h0.2.2.1]
+  refine ⟨hacc, fun xs p ys hsplit => ?_⟩
+  have ht1 := T1_exactly_once_in_order cfg hcob s0 h0 is
+  have hflat : s.accepted.flatten = xs.flatten ++ p ++ ys.flatten := by
+    rw [hacc, hsplit]; simp [List.flatten_append, List.append_assoc]
+  simp only at ht1
+  rw [hflat] at ht1
+  exact ht1
+
+/-- **… for every schedule of any number of senders.** Let `n` sender threads run any schedule of `enqueue` micro-steps; let the
+`j`-th `send` of thread `t` carry `pay t j`. If the session's Send commands are the dispatched commands in dispatch order (with
+arbitrary events, answers and faults in between), then for every dispatched command `c`, with `a` dispatched before it and `b`
+after it: open ⇒ wire ++ pending = (bytes of `a`) ++ `pay c` ++ (bytes of `b`), and always the wire is a prefix of that; and the
+commands of each thread among the dispatched ones are its sends `0, 1, …` in order, each once (T5). -/
+theorem T5_T1_one_send_contiguous (cfg : Cfg) (hcob : cfg.closeOnBackpressure = true) (s0 : St) (h0 : s0.Fresh)
+    (n : Nat) (sched : List Enq.Actor) (pay : Enq.Tid → Nat → Bytes) (is : List In) :
+    let q := Enq.run Gen.TcpSession.enqueuePushUnderCmdMutex (Enq.init n) sched
+    let bytesOf : List Enq.Cmd → Bytes := fun l => (l.map fun c => pay c.1 c.2).flatten
+    sentPayloads is = q.taken.map (fun c => pay c.1 c.2) →
+    let s := (run cfg s0 is).1
+    ∀ a c b, q.taken = a ++ c :: b →
+      (s.closed = false → s.wire ++ s.wq.flatten = bytesOf a ++ pay c.1 c.2 ++ bytesOf b) ∧
+      s.wire <+: bytesOf a ++ pay c.1 c.2 ++ bytesOf b := by
+  intro q bytesOf hsent s a c b hsplit
+  have h := (one_send_contiguous_on_wire cfg hcob s0 h0 is).2
+    (a.map fun c => pay c.1 c.2) (pay c.1 c.2) (b.map fun c => pay c.1 c.2)
+    (by rw [hsent, hsplit]; simp)
+  exact h
+
+/-- example: two senders; thread 0's one send `[1,2,3]` is cut after one byte and refused once, thread 1's `[9]` was dispatched
+after it — the wire shows `[1,2,3]` as one block followed by `[9]`, whatever happened in between -/
+example :
+    let q := Enq.run true (Enq.init 2) [.sender 0, .sender 0, .sender 1, .sender 0, .sender 0, .sender 1, .sender 1, .sender 1,
+      .sender 1, .io]
+    let pay : Enq.Tid → Nat → Bytes := fun t _ => if t = 0 then [1, 2, 3] else [9]
+    let is : List In := [.cmdSend [1, 2, 3] (.wrote 1), .cmdSend [9] .again,
+      .event { out := true } true .established .done [] [.again],
+      .event { out := true } true .established .done [] [.wrote 2, .wrote 1]]
+    q.taken = [(0, 0), (1, 0)] ∧ sentPayloads is = q.taken.map (fun c => pay c.1 c.2) ∧
+    (run {} (initAccepted false) is).1.wire = [1, 2, 3, 9] ∧ (run {} (initAccepted false) is).1.wq = [] := by decide
+
 /-- `process()` takes the queue under the same mutex (regenerated fact) -/
 theorem T5_swap_locked : Gen.TcpSession.processSwapUnderCmdMutex = true := by decide
 
@@ -324,6 +399,7 @@ theorem gen_conforms :
     Gen.TcpSession.enqueuePushUnderCmdMutex = true ∧ Gen.TcpSession.processSwapUnderCmdMutex = true ∧
     Gen.TcpSession.enqueueQueueOps = ["push_back", "push_back"] ∧
     Gen.TcpSession.sendEmptyReturns = "true" ∧ Gen.TcpSession.sendCopyLength = ["n", "n"] ∧ Gen.TcpSession.sendEnqueueCalls = 1 ∧
+    Gen.TcpSession.sendLoopCount = 0 ∧
     Gen.TcpSession.doSendTailOffsets = ["n", "n"] ∧ Gen.TcpSession.doSendTailEnds = ["end", "end"] ∧
     Gen.TcpSession.doSendTailPush = ["emplace_front", "emplace_front"] ∧
     Gen.TcpSession.doSendWholePush = ["emplace_back", "emplace_back"] ∧
